@@ -473,14 +473,16 @@ _ADD = {
            "what Level was given." " WithLevel(Panic/Fatal), Info and Log are also called right after a Panic() event that was written, discarded by the caller or by a hook, "
            "sampled out or filtered (and recovered from). During the inertness sweep the package-level callbacks (TimestampFunc, the error / stack / interface / caller / level marshal "
            "functions) are replaced by counting ones.",
-    "C06": " Destination kind 9: half of the workers reach a SyncWriter-wrapped destination through SyncWriter(SyncWriter(dest))."
+    "C06": " An error-stack marshaler is installed; one worker kind logs With().Stack(), a third of the chains record errors inside nested "
+           "dictionaries, objects and arrays." " Destination kind 9: half of the workers reach a SyncWriter-wrapped destination through SyncWriter(SyncWriter(dest))."
            " Next to the console destinations another goroutine logs through a ConsoleWriter whose destination refuses or truncates every line."
            " Some chains start with Logger.Panic() (recovered): the event carries a completion callback while other goroutines take events "
            "from the same pool.",
     "C08": " The same code-point, length and prefix-length sweeps as C02 run in the binary build through the bundled decoder."
            " The settings include caller-supplied InterfaceMarshalFunc values (wrapping, always failing): whatever they render, both builds "
            "must show the same.",
-    "C14": " A fifth of the cases reach the destinations through a logger derived with Output(root); a third of the events carry nested "
+    "C14": " A third of the multi-destination cases use a shared-base fan-out (Multi(Multi(Multi(w0,w1),w2..), last) with two more writers "
+           "extending the same base: their destinations must receive nothing)." " A fifth of the cases reach the destinations through a logger derived with Output(root); a third of the events carry nested "
            "dictionaries and an array of dictionaries (several pooled objects at once, also right after a failed write)."
            " Panic-level events start with Logger.Panic() (recovered) in half of the cases.",
     "C15": " Some bodies end in CR LF or consist of CR LF only.",
@@ -494,18 +496,23 @@ _ADD = {
            "logger must be unchanged afterwards." " Remote addresses include bare IPv6 literals without port.",
     "C03": " Msgf finalizers are also written without operands, with text that means something to fmt (escaped / dangling percent signs, verbs "
            "without operands); the slice handed to Hook(...) is overwritten by the caller afterwards.",
-    "C05": " The slice handed to Hook(...) is overwritten by the caller right after the call.",
-    "C12": " One run in eight contains a zero-length message (Write(nil) / Write([]byte{})).",
+    "C05": " Built-in hooks added through the Context (Timestamp, a caller hook beyond the stack) are derivation steps of the model; a quarter of "
+           "the trees have a directed branch Hook, Hook, With().Timestamp(), then three siblings adding different built-in hooks."
+           " The slice handed to Hook(...) is overwritten by the caller right after the call.",
+    "C12": " When Close has returned, messages not delivered must be covered by what the alerter was told (not only by positions the consumer "
+           "skipped)." " One run in eight contains a zero-length message (Write(nil) / Write([]byte{})).",
     "C10": " One run in eight contains a zero-length message.",
+    "C07": " Long typed slices: 15 slice kinds x 100..5600 elements (encoded size <= 56 000 bytes) must be allocation-free once the pooled buffer has grown.",
     "C09": " Exhaustive sweeps read with the independent parser: every code point (text strings carry the logged bytes verbatim, byte strings "
            "the logged bytes) and every length 0..1100 and around 2^16 for keys, text, bytes, hex (tag 263), messages and typed slices.",
-    "C11": " One run in eight contains a zero-length message; in a quarter of the runs two goroutines call Close at once (whichever returns "
+    "C11": " Fatal children also put a ConsoleWriter (value, pointer, inside a MultiLevelWriter, from NewConsoleWriter via Output) in front of the diode."
+           " One run in eight contains a zero-length message; in a quarter of the runs two goroutines call Close at once (whichever returns "
            "first, the backlog has been delivered or reported); one run in sixteen writes nothing at all.",
     "C13": " Events also start with Logger.Panic() (recovered) and WithLevel(Fatal/Panic)."
            " A quarter of the Logger runs derive their loggers (Sample, With, Output) while sampling is globally disabled and re-enable it before logging.",
     "C16": " Every Unicode code point is rendered inside a field name, a field value, a slice, a dictionary, an error text and the message "
            "(1 114 112 events from the real logger, compared with the reference renderer)." " One program in eight has events with dozens of fields (FieldsOrder over more than 16 names)." " Before a fifth of the renderings another ConsoleWriter edits, in place, the PartsOrder its constructor gave it.",
-    "C19": " Helper chains 5 to 1000 frames deep report their caller with one CallerSkipFrame(N+2) or N+2 calls of CallerSkipFrame(1)."
+    "C19": " Logger.Write is also called with empty, nil, newline-only and newline-less payloads." " Helper chains 5 to 1000 frames deep report their caller with one CallerSkipFrame(N+2) or N+2 calls of CallerSkipFrame(1)."
            " Every third statement runs after a pool history: events discarded (by the caller or a hook), filtered, panicking or written "
            "elsewhere, with skip counts of their own.",
 }
@@ -524,3 +531,6 @@ CHECKS["C08"].setdefault("require", {})["code_points_logged"] = 1114112
 CHECKS["C18"].setdefault("require", {})["rounds_with_a_logger_in_the_base_context"] = 20
 CHECKS["C09"]["require"]["code_points_logged"] = 1114112
 CHECKS["C16"].setdefault("require", {})["code_points_rendered"] = 1114112
+CHECKS["C07"]["require"]["long_slice_events_measured"] = 60
+CHECKS["C14"].setdefault("require", {})["cases_with_a_shared_base_fan_out"] = 1000
+CHECKS["C05"]["require"]["directed_builtin_hook_branches"] = 100
